@@ -211,6 +211,10 @@ func main() {
 			req.Header.Set("Authorization", "Bearer"+token)
 		case "suffix":
 			req.Header.Set("Authorization", "Bearer "+token+"x")
+		case "truncated":
+			req.Header.Set("Authorization", "Bearer "+token[:len(token)-1])
+		case "onechar":
+			req.Header.Set("Authorization", "Bearer "+token[:1])
 		}
 		before := state(lb, cfg)
 		rec := httptest.NewRecorder()
